@@ -90,8 +90,6 @@ def build(rv, rconn, hs, sv, status, framing, sconn):
 def generate(rng, tier, mult):
     out = []
     for combo in itertools.product(["1.0", "1.1"], REQ_CONN, HANDSHAKE, ["1.0", "1.1"], [200, 302, 404], FRAMING, REQ_CONN):
-        if combo[5] == "close-te" and combo[4] == 302:
-            continue
         out.append(build(*combo))
     # message boundary lost: a 3xx head with Location that is not complete yet is returned as a response (known finding F10 of C05);
     # whatever Connection field it carries, the connection must not be offered for reuse
@@ -136,10 +134,12 @@ def oracle(script, obs):
     has_body = not (100 <= st <= 199 or st in (204, 304))
     method = "GET" if hs == "get" else "POST"
     # close-delimited body: no framing header, and the rules give a body (not 302-without-framing)
-    if framing in ("close", "close-te") and st != 302 and has_body:
+    if framing == "close" and st != 302 and has_body:
         facts.add("cdl")
+    if framing == "close-te" and has_body:
+        facts.add("cdl")       # a Transfer-Encoding field is a framing header: also a 3xx is then close-delimited
     # also: chunked on an HTTP/1.0 response is not chunked: falls back to close-delimited (no Content-Length)
-    if framing == "chunked" and sv == "1.0" and st != 302 and has_body:
+    if framing == "chunked" and sv == "1.0" and has_body:
         facts.add("cdl")
     want = len(facts) > 0
     _stats["must_close" if want else "reusable"] += 1
